@@ -12,7 +12,7 @@ claim("C02",
 claim("C17",
       "interprocedural lockset analysis on SSA (guarded-by inference, atomic consistency, RW mode, lock pairing, lock-order cycle detection)",
       "Decides, for every struct field of package spine and every function of spine and model, that locking is consistent: each field with a locked write is accessed only under the lock common to its accesses (inferred on every run, 21 guarded fields and 4 atomic fields on the pinned tree), no write or mutating library call happens under a read lock, every Lock is released on every path, and the held->acquired order over all 20+ mutexes along synchronous call edges (through interfaces, promoted-method wrappers, generic instantiations and synchronously run closures) is acyclic. A lockset argument: necessary for, not equal to, freedom from data races and deadlocks.",
-      "Trusted: go/ssa, the call graph (static, VTA, CHA fallback); go statements and timers start lock-free contexts; external interfaces (SHIP writer, application callbacks) do not call back synchronously. Never-guarded mutable fields are recorded as known findings.",
+      "Trusted: go/ssa, the call graph (static, VTA, CHA fallback); go statements and timers start lock-free contexts; external interfaces (SHIP writer, application callbacks) do not call back synchronously. A mutable field that is never guarded is reported (none on the tree since the five fix commits of session 5).",
       "DESIGN.md §4 C17")
 claim("C01",
       "path-sensitive effect counting over a finite abstraction (SSA path enumeration with callee summaries) + provenance rules on response builders and call sites",
@@ -124,3 +124,27 @@ ADDENDA = {
     "C19": " Also decided: encoder/decoder guard agreement of the time period, and the FormatFloat parameters the decimal count is derived from. Round 3: the duration reader rejects only what the parser rejects; constructors never store the address of a package-level variable; MarshalJSON has a value receiver.",
     "C20": " Also decided: the lock of the copy-modify-store cycle is as wide as the data (not per entity); hand-written slice comparisons test lengths for equality. Round 3: remove-all is a retain loop over the address (every actor's entry goes); in-place compaction of the shared use-case lists is an element write.",
 }
+
+# Rules added in rounds 4 and 5 of the seeded changes (DESIGN.md §10.1, "Fourth round", "Fifth round").
+ROUND45 = {
+    "C01": " Rounds 4-5: the result builder carries the error's own number (0 without an error); CmdType.Data takes the function from the tag of the field it returns; per-write approval bookkeeping never touches the peer's other writes; the command builders of the function data assign no field (no memoised reply).",
+    "C02": " Rounds 4-5: ExtractFilter examines every filter of the command (no early exit from its loop).",
+    "C03": " Rounds 4-5: RemoveEntityByAddress drops exactly the entity it hands to the clean-up (retain truth table), so no entity loses its place in the tree while keeping its bindings.",
+    "C04": " Rounds 4-5: no reflective Set through the pointee of a field (a mutator replaces pointers, it never writes what they point to).",
+    "C05": " Rounds 4-5: results of repository look-ups that can miss (one pointer/interface result with a constant-nil return; derived on every run) are nilable: every method call, dereference or field access through them in the inbound tree needs a dominating non-nil test; constant indexes into wire text need a length test; the NodeManagement feature of entity [0] is restored by a look-up of its address only; CmdType.Data pairs function and value of the same field (shared with C18).",
+    "C06": " Rounds 4-5: the per-entry add and remove of a notification do not depend on earlier entries (no loop-carried condition); the removed-entity search of a full notification ranges over the peer's complete entity list; RemoveEntityByAddress drops exactly the entity it returns; a re-announced entity is rebuilt whenever its description is stored; the learned device address is given to every announced entity that lacks it.",
+    "C07": " Rounds 4-5: the announcement renderers (Information of device, entity, feature) keep no rendered result and assign no field; the duplicate scan of the node-management subscription compares whole feature objects.",
+    "C08": " Rounds 4-5: the subscription id counter only grows (atomic add of a positive constant); the duplicate scan compares the whole client feature object; every announced remote entity gets the learned device address (RemoveSubscription matches on it).",
+    "C09": " Rounds 4-5: the binding id counter only grows; entity look-ups by rendered key need a separator (shared slice-comparison lint).",
+    "C10": " Rounds 4-5: RemoveEntityByAddress drops exactly the entity it returns (retain truth table).",
+    "C11": " Rounds 4-5: the object put into the store is not also returned; an element copied out of a shallow clone still shares its inner slices with the source (slices.Clip or a reslice do not make them private).",
+    "C12": " Rounds 4-5: the tally is compared with the number of callbacks itself, operator '<'; a registration is refused only under the role test.",
+    "C13": " Rounds 4-5: the eviction is decided by the constant bound alone, its candidate list is not a zero-filled slice that is only appended to; the clear operation deletes iff a reference is given and cached (truth table); the content of destination and command reaches the digest (a length or comparison result does not count); no arithmetic on the issued counter.",
+    "C15": " Rounds 4-5: a handler subscribed at core level starts no goroutine (its work is done when Publish returns); the stack's core subscription is unconditional in the function that sets up a peer.",
+    "C17": " Rounds 4-5: no pointer into live state is handed out (shared with C11-O7); writes into a local struct copy are not writes into the state it was copied from. The eight never-guarded fields recorded as known findings until then were repaired in /repo (five fix commits) and are now decided like every other guarded field.",
+    "C18": " Rounds 4-5: conditional name table T6 — if a reflective accessor looks a field up by a name computed from the function, every tagged field must be named after its function (exhaustive).",
+    "C19": " Rounds 4-5: no float-to-integer conversion of a parsed or divided quantity without rounding.",
+    "C20": " Rounds 4-5: address keys may be read through the entity's Address() getter.",
+}
+for _k, _v in ROUND45.items():
+    ADDENDA[_k] = ADDENDA.get(_k, "") + _v
